@@ -11,6 +11,7 @@ Definition ho_sendresp_yields : list bytes := [hex "73656e64726573702e7265676973
 Definition ho_serve_match_condition : bytes := hex "6f6b202626207265616465724368616e2e7374616e7a614e616d65203d3d2073746172742e4e616d65207c7c207265616465724368616e2e7374616e7a614e616d65203d3d20656d7074795370616365". (* ok && readerChan.stanzaName == start.Name || readerChan.stanzaName == emptySpace *)
 Definition ho_serve_awaits_close_after_handoff : bool := true.
 Definition ho_serve_yields : list bytes := [hex "73657276652e6c6f6f6b75702e6166746572"; hex "73657276652e6f666665722e6265666f7265"; hex "73657276652e6177616974636c6f73652e6265666f7265"; hex "73657276652e6177616974636c6f73652e6166746572"; hex "73657276652e6f666665722e637478646f6e65"; hex "73657276652e68616e646c65722e6265666f7265"]. (* serve.lookup.after serve.offer.before serve.awaitclose.before serve.awaitclose.after serve.offer.ctxdone serve.handler.before *)
+Definition ho_getidtyp_skips_qualified : bool := true.
 Definition ho_responder_close_closes_chan : bool := true.
 Definition ho_errcloser_token_closes : nat := 1. (* 0 nothing, 1 the guarded Close, 2 the embedded reader *)
 Definition ho_errcloser_close_once : bool := true.
@@ -43,4 +44,8 @@ Definition ho_ibb_yields : list bytes := [hex "6962622e726561642e636865636b6564"
 Definition ho_ibb_serve_close_blocking_write_locks : nat := 0.
 Definition ho_ibb_serve_close_try_write_locks : nat := 1.
 Definition ho_ibb_serve_close_sets_abort : bool := true.
+Definition ho_ibb_serve_close_returns_error : bool := false.
+Definition ho_ibb_expect_cleanup_deletes : nat := 1.
+Definition ho_ibb_expect_cleanup_checks_owner : bool := true.
+Definition ho_ibb_open_offer_gives_up_on_done : bool := true.
 Definition ho_ibb_writer_tests_abort_first : bool := true.
